@@ -410,6 +410,87 @@ func (w *World) ledgerArms(c ssa.CallInstruction) []ledgerArm {
 	return w.ledgerArmsOfValue(cc.Value, c)
 }
 
+// ledgerArmsF: like ledgerArms, and also a call of a package-private selector
+// that does nothing but forward to ledger methods (`func (c) setX(x, exec) { if
+// exec { return L.SetFinality(x) }; return L.Set(x) }`). The arms' receivers are
+// values of the selector's frame (they print like the caller's). Used where a
+// rule asks WHAT is done to a ledger; rules that ask WHERE an overlay is touched
+// (C06, C19) look at the selector's own body instead.
+func (w *World) ledgerArmsF(c ssa.CallInstruction) []ledgerArm {
+	if a := w.ledgerArms(c); a != nil {
+		return a
+	}
+	arms, _ := w.fwdLedger(c)
+	return arms
+}
+
+// fwdLedger: the arms of a forwarding selector call and the index (in the call's
+// arguments) of the argument that reaches the ledger methods' last parameter (-1 if none).
+func (w *World) fwdLedger(c ssa.CallInstruction) ([]ledgerArm, int) {
+	cc := c.Common()
+	f := cc.StaticCallee()
+	if f == nil || cc.IsInvoke() {
+		return nil, -1
+	}
+	if _, viaClosure := cc.Value.(*ssa.MakeClosure); viaClosure {
+		return nil, -1
+	}
+	fw := w.forwardedCalls(f)
+	if fw == nil || len(f.Params) != len(cc.Args) {
+		return nil, -1
+	}
+	var arms []ledgerArm
+	item := -2
+	for _, inner := range fw {
+		ia := w.ledgerArms(inner)
+		if len(ia) != 1 {
+			return nil, -1
+		}
+		arms = append(arms, ledgerArm{Method: ia[0].Method, Recv: ia[0].Recv, Site: c})
+		idx := -1
+		if n := len(inner.Common().Args); n > 0 {
+			if pi := paramIndexIn(f, inner.Common().Args[n-1]); pi >= 0 {
+				idx = pi
+			}
+		}
+		if item == -2 {
+			item = idx
+		} else if item != idx {
+			item = -1
+		}
+	}
+	if item < 0 {
+		item = -1
+	}
+	return arms, item
+}
+
+// ledgerItemArg: the argument of a ledger call that names the item / key it acts on.
+func (w *World) ledgerItemArg(c ssa.CallInstruction) ssa.Value {
+	if w.ledgerArms(c) == nil {
+		if arms, idx := w.fwdLedger(c); arms != nil {
+			if idx >= 0 {
+				return c.Common().Args[idx]
+			}
+			return nil
+		}
+	}
+	if n := len(c.Common().Args); n > 0 {
+		return c.Common().Args[n-1]
+	}
+	return nil
+}
+
+// ledgerItemArgIndex: position of that argument in the call's argument list (-1 if none).
+func (w *World) ledgerItemArgIndex(c ssa.CallInstruction) int {
+	if w.ledgerArms(c) == nil {
+		if arms, idx := w.fwdLedger(c); arms != nil {
+			return idx
+		}
+	}
+	return len(c.Common().Args) - 1
+}
+
 // ledgerArmsOfValue: the ledger methods a function value (bound method value or
 // phi of bound method values) stands for; nil if it is anything else.
 func (w *World) ledgerArmsOfValue(fv ssa.Value, c ssa.CallInstruction) []ledgerArm {
